@@ -300,6 +300,10 @@ func (ex *Exec) syncInfo(st *State, instr ssa.Instruction) *syncInfo {
 		if fv.Alts[0].Recv != nil {
 			args = append([]Value{fv.Alts[0].Recv}, args...)
 		}
+		if n := fv.Alts[0].Fn.String(); n == "(*sync.WaitGroup).Done" || n == "(*sync.WaitGroup).Add" {
+			// a deferred counter update runs as part of the segment that ends the function
+			return nil
+		}
 		return ex.namedSyncInfo(st, fv.Alts[0].Fn, args)
 	}
 	return nil
